@@ -151,8 +151,9 @@ def run(ctx):
                 if e['sys'] in ('statx', 'newfstatat', 'lstat', 'stat'):
                     nstat[e['sys']] = nstat.get(e['sys'], 0) + 1
             targets = [(sysn, '*', k) for sysn, cnt in nstat.items() for k in range(1, min(cnt, 10 if ctx.quick else 40) + 1)]
-            # … and the probes of the special file's own paths, one by one (the same-file test of a FIFO stats source and destination)
-            targets += [(sysn, nm, k) for sysn in nstat for nm in ('fifo', 'lnk', 'sub') for k in range(1, 7)]
+            # … and the probes of the aliased entries' own paths, one by one (the same-file tests stat source and destination): this is
+            # how the repaired defect F20 shows — exists() read a failing stat as 'absent' and the source was truncated through the link
+            targets += [(sysn, nm, k) for sysn in nstat for nm in ('fifo', 'lnk', 'sub', '/m', '/n') for k in range(1, 7 if ctx.quick else 12)]
             for sysn, pth, k in targets:
                 for _once in (1,):
                     subprocess.run(f'rm -rf {root}', shell=True); os.makedirs(root)
